@@ -184,7 +184,15 @@ func (e *Engine) invokeValue(st *State, g *G, fr *Frame, callee Value, args []Va
 					pre.vars = o.vars
 				}
 			}
-			pre.pc = append(pre.pc, disj)
+			pre.assume(disj)
+			if pre.model == nil {
+				for _, o := range outs {
+					if o.model != nil {
+						pre.model = o.model
+						break
+					}
+				}
+			}
 			pfr := pre.g().top()
 			if v, ok := in.(ssa.Value); ok {
 				pfr.locals[v] = mv
@@ -380,7 +388,7 @@ func (e *Engine) intrinsic(st *State, g *G, fr *Frame, in ssa.Instruction, f *ss
 			return e.abort(st, "vChoice with bad bound"), true, false
 		}
 		b := e.freshND(st, 8)
-		st.pc = append(st.pc, Cmp("bvult", b, C(n.Val, 8)))
+		st.assume(Cmp("bvult", b, C(n.Val, 8)))
 		return fin(Zext(b, 64))
 	case "vParam":
 		k, _ := args[0].(string)
@@ -398,9 +406,7 @@ func (e *Engine) intrinsic(st *State, g *G, fr *Frame, in ssa.Instruction, f *ss
 			e.assumeCut++
 			return nil, true, false
 		}
-		if !c.True() {
-			st.pc = append(st.pc, c)
-		}
+		st.assume(c)
 		return fin(nil)
 	case "vAssert":
 		c, ok := args[0].(*Term)
@@ -466,6 +472,35 @@ func (e *Engine) intrinsic(st *State, g *G, fr *Frame, in ssa.Instruction, f *ss
 	case "vChanClosed":
 		p := args[0].(Ptr)
 		return fin(B(st.heap[p.obj].v.(*ChanModel).closed))
+	case "vImplies", "vAnd", "vOr", "vIff":
+		a, ok1 := args[0].(*Term)
+		b, ok2 := args[1].(*Term)
+		if !ok1 || !ok2 {
+			return e.abort(st, name+" on opaque"), true, false
+		}
+		switch name {
+		case "vImplies":
+			return fin(Or(Not(a), b))
+		case "vAnd":
+			return fin(And(a, b))
+		case "vOr":
+			return fin(Or(a, b))
+		}
+		return fin(Eq(a, b))
+	case "vNot":
+		a, ok := args[0].(*Term)
+		if !ok {
+			return e.abort(st, name+" on opaque"), true, false
+		}
+		return fin(Not(a))
+	case "vIte64":
+		c, ok0 := args[0].(*Term)
+		a, ok1 := args[1].(*Term)
+		b, ok2 := args[2].(*Term)
+		if !ok0 || !ok1 || !ok2 {
+			return e.abort(st, name+" on opaque"), true, false
+		}
+		return fin(Ite(c, a, b))
 	case "vSymbolic":
 		return fin(B(true))
 	case "vTrace":
